@@ -168,6 +168,8 @@ func (e *Engine) execRangeMap(st *State, n *ast.RangeStmt, cx *Ctx, lc *LoopCont
 	zeroVis := T{"((as const (Array Int Int)) 0)", SArr}
 	e.visStack = append(e.visStack, zeroVis)
 	e.checkInvariants(st, lc, "inv-init", n.Pos())
+	pushedLF := e.pushLoopFrame(st, lc)
+	defer e.popLoopFrame(pushedLF)
 	head := st
 	e.havocLoopTargets(head, n.Body)
 	// ghost: the set of keys already visited (each key of the map is visited exactly once; the map is not
